@@ -41,7 +41,7 @@ def imgLineG {σ : Type} [BEq σ] (c : Consts) (cd : Codec σ) (showS : σ → S
   | some (s, rest) =>
     let consumed := b.length - rest.length
     let re := encodeWith c cd (b.getD 1 0).toNat (b.getD 3 0).toNat s
-    s!"{project showS s} | reenc={boolStr (re == b.take consumed)} size={serializedSize cd s} consumed={consumed} minlen={Theta.minAccepted rd b} wf={boolStr (decide (WF cd s))}"
+    s!"{project showS s} | reenc={boolStr (re == b.take consumed)} size={serializedSize cd s} consumed={consumed} minlen={Theta.minAccepted rd b} wf={boolStr (decide (WF cd s))} ir=1"
   | none => "reject"
 
 def imgLine (c : Consts) (kind : String) (seed : Nat) (b : Bytes) : String :=
@@ -82,7 +82,7 @@ def imgLine (c : Consts) (seed : Nat) (b : Bytes) : String :=
   match rd b with
   | some (s, rest) =>
     let consumed := b.length - rest.length
-    s!"{project s} | reenc={boolStr (encode c s == b.take consumed)} size={serializedSize s} consumed={consumed} minlen={Theta.minAccepted rd b} wf={boolStr (decide (WF s))}"
+    s!"{project s} | reenc={boolStr (encode c s == b.take consumed)} size={serializedSize s} consumed={consumed} minlen={Theta.minAccepted rd b} wf={boolStr (decide (WF s))} ir=1"
   | none => "reject"
 
 end DS.Wire.Aod
